@@ -44,10 +44,15 @@ IfaceVerdict(s) ==
 FieldVerdict(s) == IF s # <<>> /\ s[1] \in Lower /\ AllIn(s, FieldAlphabet) THEN "accept" ELSE "reject"
 
 CONSTANTS IfaceLen, FieldLen
+(* the length bound: a name of n characters ("a." followed by n - 2 times "b"; chars holds n) is well-formed up to 255 *)
+LenCases == {[kind |-> "ifacelen", pos |-> "", chars |-> <<ToString(n)>>] : n \in {3, 254, 255, 256, 300}}
 Positions == {"input", "nested", "enum"}
 Cases == {[kind |-> "iface", pos |-> "", chars |-> s] : s \in SeqsUpTo(IfaceAlphabet, IfaceLen) \ {<<>>}}
          \cup {[kind |-> "field", pos |-> p, chars |-> s] : p \in Positions, s \in SeqsUpTo(FieldAlphabet, FieldLen) \ {<<>>}}
-Verdict(c) == IF c.kind = "iface" THEN IfaceVerdict(c.chars) ELSE FieldVerdict(c.chars)
+         \cup LenCases
+Verdict(c) == IF c.kind = "iface" THEN IfaceVerdict(c.chars)
+              ELSE IF c.kind = "ifacelen" THEN (IF c.chars[1] \in {"3", "254", "255"} THEN "accept" ELSE "reject")
+              ELSE FieldVerdict(c.chars)
 
 VARIABLE l
 TraceLog == ndJsonDeserialize("trace.ndjson")
